@@ -94,6 +94,29 @@ def register(w):
             bad = [(g, b) for g, b, _ in paths if not (g == 1 and b == 0)]
             add("inv:one_capture_item_per_parameter", not bad and bool(paths), f"{len(paths)} paths through the loop body enumerated; paths not appending exactly one item carrying `{pname}`: {bad[:3]}")
 
+            # (1b) ... and the item depends on the parameter's VALUE (or abstract value), not merely on its type:
+            #      two call sites that differ in a static keyword argument must get different keys
+            def value_names(expr):
+                names = set()
+
+                def rec(n, under_type):
+                    if isinstance(n, ast.Call) and isinstance(n.func, ast.Name) and n.func.id == "type":
+                        return
+                    if isinstance(n, ast.Name):
+                        names.add(n.id)
+                    for ch in ast.iter_child_nodes(n):
+                        rec(ch, under_type)
+                rec(expr, False)
+                return names
+            carriers = {"resolved", "original_val", "value_for_capture", "pval", "shape", "dtype_for_capture", "aval"}
+            weak = []
+            for n in ast.walk(loop):
+                if isinstance(n, ast.Expr) and isinstance(n.value, ast.Call) and isinstance(n.value.func, ast.Attribute) and n.value.func.attr == "append" \
+                        and isinstance(n.value.func.value, ast.Name) and n.value.func.value.id == "capture_items" and n.value.args:
+                    if not (value_names(n.value.args[0]) & carriers):
+                        weak.append(ast.unparse(n.value.args[0]))
+            add("inv:every_capture_item_depends_on_the_parameter_value", not weak, f"structural (AST): capture items that mention the parameter's value only through type(...): {weak}")
+
         # (2) the registry key
         key_calls = [n for n in ast.walk(fn) if isinstance(n, ast.Call) and isinstance(n.func, ast.Name) and n.func.id == "FunctionKey"]
         ok2, note2 = False, "FunctionKey(...) construction not found"
@@ -134,5 +157,5 @@ def register(w):
         out["paths"], out["time"] = 4, time.time() - t0
         return out
 
-    w.add_contract(Contract(f"{MPS}:<function-dedup-key>", kind="custom", custom=custom, props=["C07"], witnesses=["C07_sharing_family", "C03_function_identifiers_unique"]))
+    w.add_contract(Contract(f"{MPS}:<function-dedup-key>", kind="custom", custom=custom, props=["C07"], witnesses=["C07_sharing_family", "C03_function_identifiers_unique", "D29"]))
     w.trust("C07: hash(bytes)/sha1 are injective on the values met; repr(treedef) separates static configuration; id(callee) identifies a live instance (INSTANCE_MAP2 holds weak references): stated assumptions, not checked")
